@@ -94,7 +94,29 @@ func c16Run(fs *Facts) {
 	if err != nil {
 		fs.Err("%v", err)
 		fs.Tri("summonTakesVigil", Unknown, hydraPath)
+		fs.Tri("summonWaitsForUnmap", Unknown, hydraPath)
 		return
+	}
+	// summonWaitsForUnmap: the branch that waits for a closing instance ends with `continue` (back to the map lookup)
+	if sm := hy.Func("hydra", "SummonSwamp"); sm == nil {
+		fs.Tri("summonWaitsForUnmap", Unknown, hydraPath)
+	} else {
+		res, where := Unknown, hydraPath+":"+itoa(hy.Line(sm))
+		ast.Inspect(sm, func(x ast.Node) bool {
+			ifs, ok := x.(*ast.IfStmt)
+			if !ok || !strings.Contains(hy.Str(ifs.Cond), ".IsClosing()") || len(hy.CallsSuffix(ifs.Body, ".WaitForGracefulClose")) == 0 {
+				return true
+			}
+			where = hydraPath + ":" + itoa(hy.Line(ifs))
+			res = No
+			if n := len(ifs.Body.List); n > 0 {
+				if br, ok := ifs.Body.List[n-1].(*ast.BranchStmt); ok && br.Tok.String() == "continue" {
+					res = Yes
+				}
+			}
+			return true
+		})
+		fs.Tri("summonWaitsForUnmap", res, where)
 	}
 	if s := hy.Func("hydra", "SummonSwamp"); s == nil {
 		fs.Tri("summonTakesVigil", Unknown, hydraPath)
